@@ -99,6 +99,8 @@ class TriggerHandler:
         """Start the trigger handler."""
         # if we call settrace we cannot use debugger,
         # so we allow the settrace to be disabled, so we can at least debug around it
+        # we can be started again after a shutdown
+        self._is_shutdown = False
         if self._config.NO_TRACE:
             return
         self.__old_sys_trace = sys.gettrace()
